@@ -5,6 +5,8 @@ package grpcgcp
 import (
 	"fmt"
 	"io"
+	"os"
+	"sort"
 	"strings"
 	"testing"
 
@@ -309,6 +311,16 @@ func poolConfigs(prop string, thorough bool) (cfgs []poolCfg, depth int) {
 
 func checkPool(c *vsched.RunCtx, prop string) {
 	cfgs, depth := poolConfigs(prop, c.Thorough())
+	if os.Getenv("VERIF_NO_HANDROOTS") != "" {
+		// development experiment: drop the hand-written non-initial roots
+		var k []poolCfg
+		for _, x := range cfgs {
+			if !strings.Contains(x.Name, " root=") {
+				k = append(k, x)
+			}
+		}
+		cfgs = k
+	}
 	for i := range cfgs {
 		cfgs[i].Prop = prop
 	}
@@ -341,6 +353,9 @@ func checkPool(c *vsched.RunCtx, prop string) {
 			func(s *vsched.Sched) vsched.World { return newPoolWorld(s, cfg) })
 		c.Add(res)
 	}
+	if c.Thorough() {
+		autoRoots(c, prop, cfgs, depth)
+	}
 	c.Assume("fake balancer.ClientConn modelled on grpc v1.56.3 ccBalancerWrapper: NewSubConn rejects empty address lists, RemoveSubConn is followed by a SHUTDOWN report at an explorer-chosen moment, Done(DoneInfo{}) for a picked-but-not-ready connection",
 		"virtual clock; operations are atomic in history mode (sub-operation interleavings are explored by the schedule harnesses)",
 		"small scope: <=3 channels, 2 keys, <=3 open calls, 2 address lists")
@@ -360,6 +375,19 @@ func replayPool(c *vsched.RunCtx, prop string, cfgs []poolCfg) {
 		for i := range other {
 			if other[i].Name == v.Config {
 				cfg = &other[i]
+			}
+		}
+	}
+	if cfg == nil {
+		if i := strings.Index(v.Config, " auto-root="); i >= 0 {
+			for k := range cfgs {
+				if cfgs[k].Name == v.Config[:i] {
+					x := cfgs[k]
+					x.Name = v.Config
+					x.Setup = append(append([]string{}, x.Setup...), strings.Split(v.Config[i+len(" auto-root="):], ";")...)
+					x.A.MaxSC = 0
+					cfg = &x
+				}
 			}
 		}
 	}
@@ -387,4 +415,156 @@ func replayPool(c *vsched.RunCtx, prop string, cfgs []poolCfg) {
 		}
 	}
 	c.SetReplay(rr)
+}
+
+// autoRoots: non-initial roots chosen by the machine instead of by hand. Phase 1
+// explores a configuration with a reduced alphabet (latest picker, one context,
+// one key, few outcomes) deeper than the main exploration and keeps the
+// shortest history reaching each distinct abstract feature of the pool
+// (poolWorld.Feature). Phase 2 runs the property's full alphabet and monitors
+// from the deepest of those states, to a small depth. Every phase is an
+// exhaustive BFS within its own bound; the roots used are listed in the
+// evidence.
+func autoRoots(c *vsched.RunCtx, prop string, cfgs []poolCfg, depth int) {
+	wanted := map[string][]string{
+		"C01": {"C01 pool=2 fallback=false refresh=true rr=false", "C01 pool=2 fallback=true refresh=true rr=false"},
+		"C02": {"C02 pool=2 wm=100 refresh"},
+		"C04": {"C04 pool=2"},
+		"C07": {"C07 calls=1 ms=1 pool=2"},
+		"C08": {"C08 pool=2 wm=100 refresh=true", "C08 pool=3 wm=100 refresh=true"},
+		"C20": {"C20 min=1 max=2 wm=1"},
+	}[prop]
+	var bases []int
+	for _, n := range wanted {
+		for i := range cfgs {
+			if cfgs[i].Name == n {
+				bases = append(bases, i)
+			}
+		}
+	}
+	if len(bases) == 0 {
+		return
+	}
+	d1, maxRoots, d2, cap1 := depth+2, 24, 3, 20000
+	if c.Thorough() {
+		d1, maxRoots, d2, cap1 = depth+3, 120, 4, 250000
+	}
+	type job struct {
+		cfg  poolCfg
+		base string
+	}
+	var jobs []job
+	for _, bi := range bases {
+		if bi >= len(cfgs) {
+			continue
+		}
+		base := cfgs[bi]
+		red := base
+		red.Name = base.Name + " [root search]"
+		a := base.A
+		a.Gens = []string{"L"}
+		if len(a.Ctx) > 1 {
+			a.Ctx = a.Ctx[:1]
+		}
+		if len(a.Keys) > 1 {
+			a.Keys = a.Keys[:1]
+		}
+		var done []string
+		for _, o := range a.Done {
+			if o == "ok" || o == "ok:k1" || o == "cde" {
+				done = append(done, o)
+			}
+		}
+		a.Done = done
+		a.Shutdown, a.Unknown, a.Fail, a.ResErr = false, false, false, false
+		if a.States == "full" {
+			a.States = "basic"
+		}
+		if len(a.Adv) > 1 {
+			a.Adv = a.Adv[len(a.Adv)-1:]
+		}
+		a.MaxSC = 0
+		red.A = a
+		// phase 1 is identical in every worker (deterministic); phase 2 roots are dealt round-robin
+		res := vsched.BFS(vsched.BFSOpts{Name: "pool-rootsearch", Config: red.Name, Depth: d1, DevPerOp: 0, MaxStates: cap1, Deadline: c.Deadline,
+			Feature: func(w vsched.World) string { return w.(*poolWorld).Feature() }},
+			func(s *vsched.Sched) vsched.World { return newPoolWorld(s, red) })
+		if c.Shard == 0 {
+			res.Stats.Samples = nil
+			if res.Stats.Capped {
+				// the root search is a generator, not a verdict: its cap does not make the phase-2 explorations inexhaustive
+				res.Stats.Capped, res.Stats.CapReason = false, fmt.Sprintf("root search stopped at %d states by design", cap1)
+			}
+			c.Add(res)
+		}
+		// deepest histories first, shortest-name tie break for determinism
+		type root struct {
+			f   string
+			ops []string
+		}
+		var roots []root
+		for f, ops := range res.FeatureRoots {
+			if len(ops) >= depth-1 {
+				roots = append(roots, root{f, ops})
+			}
+		}
+		sort.Slice(roots, func(i, j int) bool {
+			if len(roots[i].ops) != len(roots[j].ops) {
+				return len(roots[i].ops) > len(roots[j].ops)
+			}
+			return roots[i].f < roots[j].f
+		})
+		if len(roots) > maxRoots {
+			roots = roots[:maxRoots]
+		}
+		for _, r := range roots {
+			cfg := base
+			cfg.Name = base.Name + " auto-root=" + strings.Join(r.ops, ";")
+			cfg.Setup = append(append([]string{}, base.Setup...), r.ops...)
+			cfg.A.MaxSC = 0
+			jobs = append(jobs, job{cfg, base.Name})
+		}
+	}
+	agg := map[string]*vsched.ExploreResult{}
+	for ji, j := range jobs {
+		if ji%c.NShards != c.Shard {
+			continue
+		}
+		cfg := j.cfg
+		res := vsched.BFS(vsched.BFSOpts{Name: "pool-autoroot", Config: cfg.Name, Depth: d2, DevPerOp: 1, Deadline: c.Deadline},
+			func(s *vsched.Sched) vsched.World { return newPoolWorld(s, cfg) })
+		a := agg[j.base]
+		if a == nil {
+			a = &vsched.ExploreResult{Violations: map[string]*vsched.Violation{}}
+			a.Stats = res.Stats
+			a.Stats.Config = j.base + " (machine-chosen roots, depth " + fmt.Sprint(d2) + " from each)"
+			a.Stats.Samples = []interface{}{map[string]interface{}{"root": cfg.Setup}}
+			agg[j.base] = a
+		} else {
+			a.Stats.Execs += res.Stats.Execs
+			a.Stats.States += res.Stats.States
+			a.Stats.Transitions += res.Stats.Transitions
+			a.Stats.Nontrivial += res.Stats.Nontrivial
+			a.Stats.Points += res.Stats.Points
+			a.Stats.Steps += res.Stats.Steps
+			a.Stats.Pruned += res.Stats.Pruned
+			a.Stats.Capped = a.Stats.Capped || res.Stats.Capped
+			if len(a.Stats.Samples) < 3 {
+				a.Stats.Samples = append(a.Stats.Samples, map[string]interface{}{"root": cfg.Setup})
+			}
+		}
+		for k, v := range res.Violations {
+			if _, ok := a.Violations[k]; !ok {
+				a.Violations[k] = v
+			}
+		}
+	}
+	var names []string
+	for n := range agg {
+		names = append(names, n)
+	}
+	sort.Strings(names)
+	for _, n := range names {
+		c.Add(agg[n])
+	}
 }
